@@ -259,7 +259,7 @@ def save_structure(ctx, R="R-C17-save-guard"):
                           "every name that is not a .npy / .npz target is written raw with tofile",
                           "tofile is reached under suffix tests +%s -%s" % ([sp for sp, a in pos], sorted(exts)))
                 ctx.check(astq.eq_text(c, "self._stats.tofile(%s)" % fname), R2, f, astq.enclosing_stmt(pm, c), "the raw writer writes the whole matrix to the named file",
-                          "raw writer is %s" % astq.text(c)[:80])
+                          "raw writer is %s" % astq.text(c)[:80], structural=True)
                 continue
             want = "." + kindw
             ctx.check(len(pos) == 1 and pos[0][0][0] == want, R2, f, astq.enclosing_stmt(pm, c),
@@ -272,7 +272,7 @@ def save_structure(ctx, R="R-C17-save-guard"):
                       "numpy's %s writer is given %s" % (kindw, astq.text(c.args[0])[:60] if c.args else None))
             if kindw == "npy":
                 ctx.check(len(c.args) == 2 and astq.eq_text(c.args[1], "self._stats"), R2, f, astq.enclosing_stmt(pm, c), "np.save stores the statistics matrix",
-                          "np.save stores %s" % (astq.text(c.args[1])[:60] if len(c.args) > 1 else None))
+                          "np.save stores %s" % (astq.text(c.args[1])[:60] if len(c.args) > 1 else None), structural=True)
     npzs = [a for sp, inb, a in path_preds(writers["npz"][0]) if inb and sp[0] == ".npz"]
     ctx.need(npzs, R2, ".npz branch not found")
     npz = npzs[0]
@@ -376,4 +376,4 @@ def loader(ctx, R="R-C17-loader"):
     rs = prog.func("util.read_signal")
     txt = astq.text(rs.node)
     for kind in ("npy", "npz", "file"):
-        ctx.check("force_as == '%s'" % kind in txt, R, rs, rs.node, "read_signal handles '%s'" % kind, "read_signal no longer handles %s" % kind)
+        ctx.check("force_as == '%s'" % kind in txt, R, rs, rs.node, "read_signal handles '%s'" % kind, "read_signal no longer handles %s" % kind, structural=True)
